@@ -197,6 +197,20 @@ def main():
             r["merge_mismatch"] = bad
         # oracle hypothesis of the checker soundness theorem: these regexes never match the empty string
         import re
+        for p1, p2, p3 in req.get("alts", []):
+            rx = {}
+            for o in shared:
+                if o[0] == "re" and o[1] in (p1, p2, p3):
+                    rx[o[1]] = re.compile(o[1], o[2])
+            if len(rx) != 3:
+                r.setdefault("alts_mismatch", []).append([p3, "a pattern of the triple is not in the oracle table"])
+            else:
+                for q in range(len(text) + 1):
+                    m1, m2, m3 = rx[p1].match(text, q), rx[p2].match(text, q), rx[p3].match(text, q)
+                    want = m1.end() if m1 else (m2.end() if m2 else None)
+                    if (m3.end() if m3 else None) != want:
+                        r.setdefault("alts_mismatch", []).append([p3, q])
+                        break
         for pat in req.get("nonempty", []):
             for o in shared:
                 if o[0] == "re" and o[1] == pat:
